@@ -26,10 +26,17 @@ every step that answers Continue and is below `fuelFor m inp`, so `run`, `feed` 
 delivers a tag, so the sink is never consulted — and delivers EOF last) and `Props/C04Xml.lean` (the no-panic invariant, feed-drains
 and EOF-last theorems ported to the XML tokenizer model).
 
-`C04_partial`: NOT proved — totality of the tree builders; a fuel bound for the XML tokenizer's `run`;
-real stack depth, allocation failure and wall-clock time, which no model can exhibit. Those are
-exercised by the harness (`catch_unwind`, per-case watchdog with bisection, 10^5-deep nesting
-families, queue-drained and single-EOF counters).
+Further parts: `Props/C04XmlTerm.lean` (termination of the XML tokenizer loop, `end()` total),
+`Props/C16.lean` (`C16_no_panic`: the XML tree-builder model completes on every token list) and
+`Props/C04TB.lean` (the HTML tree-builder model: invariant `TI` through all 21 insertion modes; none of
+the 49 panic sites of `tree_builder/mod.rs` / `rules.rs` is reachable for any token list, option set,
+document or fragment start).
+
+`C04_partial`: NOT proved — that the HTML tree builder's tree-moving sink calls stay inside the
+TreeSink contract (RcDom's own asserts) and the fuel of the model's reprocess loop; real stack depth,
+allocation failure and wall-clock time, which no model can exhibit. Those are exercised by the harness
+(`catch_unwind`, per-case watchdog with bisection, 10^5-deep nesting families, queue-drained and
+single-EOF counters).
 -/
 namespace H5V.Props.C04
 open H5V.Model.HtmlTok
